@@ -757,11 +757,46 @@ fn sweep_apps(thorough: bool) -> Vec<App> {
     for extra in ["PT7200S", "-PT90S", "PT9223372036854776S", "-PT9223372036854776S", "PT0.5S", "P1D", "PT1H", "P1W", "1 week", "90s", "1h30m", "0x10", "0b11", "0o17", "1_000", "１２", "Infinity", "-inf", "nan", "1e400", "1e-400", "0.1e1", "1.", ".5", "+.5e+1", "१२"] {
         printed.push(RV::Str(extra.to_string()));
     }
+    // strings of exactly the byte lengths fixed-offset parsers expect (timestamps: 19, 20, 24, 25,
+    // 29, 30 bytes; also 8, 10), ending in `Z`, with one multi-byte character at every offset
+    for total in [8usize, 10, 19, 20, 21, 24, 25, 29, 30] {
+        for wide in ['é', '€', '😀', '２'] {
+            let w = wide.len_utf8();
+            for at in 0..(total - 1) {
+                if at + w > total - 1 {
+                    continue;
+                }
+                let model = "2015-07-30T03:26:13.123456789";
+                let mut t = String::new();
+                t.push_str(&model[..at.min(model.len())]);
+                while t.len() < at {
+                    t.push('0');
+                }
+                t.push(wide);
+                while t.len() < total - 1 {
+                    let i = t.len();
+                    t.push(model.as_bytes().get(i).map(|b| *b as char).unwrap_or('0'));
+                }
+                t.truncate(total - 1);
+                if t.is_char_boundary(t.len()) && t.len() == total - 1 {
+                    t.push('Z');
+                    printed.push(RV::Str(t));
+                }
+            }
+        }
+    }
     printed.sort();
     printed.dedup();
     for v in &printed {
         for op in ALL_UNOPS {
             apps.push(App::Un(op, v.clone()));
+        }
+    }
+    // field names a future version might give a meaning to (`.len`, `.size`, `.keys`, ...): on every
+    // pool value they are ordinary field steps (None stays None, scalars are a type error)
+    for v in pool::v0().iter() {
+        for w in super::c15::PLAUSIBLE_WORDS.iter().filter(|w| crate::spec::rv::is_ident(w)) {
+            apps.push(App::IdxF(v.clone(), w.to_string()));
         }
     }
     // calendar: every day around the century years 1900 / 2000 / 2100 / 2400 (thorough: every day
